@@ -3,12 +3,14 @@ CONSTANTS
   MaxG = 60
   Dpbs = {16, 32}
   ResizeSet = {1, 2, 3, 4, 8, 10, 26, 28, 50, 60}
+  Geos <- OneGeo
   MaxSteps = 2
   DevTuneMasterOnly = FALSE
   DevFsckIgnoresFeatDiff = FALSE
   DevFlushSkipsLast = FALSE
   DevResizeKeepsOldGdt = FALSE
   DevResizeMovesSoleBackup = FALSE
+  DevSearchGuesses8xBs = FALSE
   DevBackupSearchIgnoresSs2 = FALSE
 INVARIANT TypeOK
 INVARIANT InvCurrent
